@@ -5,6 +5,12 @@ position x masking; endpoint x bad-parameter class) with the status class the pr
 is executed on a real ctfe.Instance whose backend replies are rewritten by an interceptor; status class, absence of an
 SCT, RequestLog calls, masking, absence of backend calls for bad requests, and panics are checked.
 
+The leaf QueueLeaf echoes is opened field by field (CTFEFaults!Echoes): perfectly framed TLS in which an enumerated
+field (version, leaf_type, entry_type incl. the library's experimental JSON entry number) holds a value the protocol
+does not define, the ASN.1Cert / TBSCertificate vector has length 0 (its floor is 1), nothing follows an unknown
+leaf_type - alone and combined, on add-chain and add-pre-chain (the other entry arm included): 5xx, no SCT, nothing
+recorded as issued.  Named unasserted clause EchoVersionUnasserted: a leaf that deviates in its version octet only.
+
 Schedules (spec/ctfe/CTFETrace.tla over CTFE.tla): requests overlap.  The harness parks the backend call of one
 request inside the backend, sends further requests (mostly the same endpoint of the same front end, half of them the
 very same request), lets the tree grow, and only then lets the parked call fail (refusal or lost reply).  Every request
@@ -23,7 +29,14 @@ def run(ctx, replay=None):
         "malformed replies are those a wire decode can produce (absent optional messages, short hashes, surplus or "
         "mis-indexed leaves, undecodable echoed leaf); nil elements inside repeated fields and a nil response with a nil "
         "error are not generated",
-        "reference backend; in-backend (direct) issuance-chain mode (external chain storage faults belong to C14)",
+        "named clause EchoVersionUnasserted: an echoed leaf that is a well-formed v1 MerkleTreeLeaf except for its version "
+        "octet (1, 255) decodes with the library's codec and the front end answers 200 with a v1 SCT over the echoed entry; "
+        "the property is silent on it: executed and recorded (notes of the evidence), judged only for no crash / request "
+        "log coherence; a version other than v1 together with any other deviation is asserted (5xx, no SCT)",
+        "reference backend; the fault matrix runs in the in-backend (direct) issuance-chain mode; the external chain "
+        "storage mode (where a reply is post-processed leaf by leaf before the handler's own checks) is covered by the "
+        "ChainStore.tla replay and its page matrix: a page with one leaf that cannot be fixed up, at every position and "
+        "under every completion order of the per-leaf work, is never answered 200",
     ]
     ctx.tlc("ctfe", "MCCTFEFaults", "CTFEFaults.cfg", workers=4)
     r = ctx.tlc("ctfe", "MCCTFEFaults", "CTFEFaultsExport.cfg", workers=1, count=False)
@@ -39,3 +52,6 @@ def run(ctx, replay=None):
     # backend until other requests have arrived and then fails; CTFETrace.tla demands that every reply is the one the
     # request's own backend call explains (a 200 get-sth needs a successful root fetch inside its own interval).
     ctfe_common.concurrent_traces(ctx, "C08")
+    # the external chain storage mode: a reply whose leaves are fixed up one by one (ChainStore.tla: garbled leaves,
+    # missing / damaged rows, storage faults at any position of a page x completion orders; failed storage.Add = 5xx)
+    ctfe_common.external_storage(ctx)
